@@ -14,7 +14,6 @@ func init() {
 		ID:       "C12",
 		Title:    "Transactions can only write where their executor is allowed",
 		Packages: []string{"executor"},
-		Hold:     "rule R12d fires on procExecAddBlock's proxy-exec branch (local KVs appended without checkPrefix); reproduction against the real code is in progress before it is fixed or recorded",
 		Explanation: "Decides R12a-R12e: execTxOne succeeds only behind checkKV (fed with the state keys recorded after Exec and the receipt's KV) and checkKeyAllow; " +
 			"both checks quantify over every key (loop-forall) with live rejections; StateDB.Set records every key written inside a transaction; " +
 			"local KVs are applied/returned only behind checkKV+checkPrefix (execLocalTx, procExecDelBlock, procExecAddBlock); " +
